@@ -31,6 +31,12 @@ PROPS = {
         decided_by_proof="checksummed chunk reader: intact multi-chunk reads, every single-byte change of a chunk (header or data) and every truncation is detected modulo an explicit checksum accident; guard: not the 4 magic bytes at file offset 0 (known finding, counterexample theorem)",
         partial="length-prefixed decoders (ReadDictEnc, block summaries, segstats, pqmr, TSO/TSG), per-segment error collection and process survival: correspondence / end-to-end only",
     ),
+    "C15": dict(
+        suites=[("bulk", 4000, 60000)],
+        facts={"const.MAX_RECORD_SIZE": "63000"},
+        decided_by_proof="the HandleBulkBody loop: one item per action in order, item status local to its action, stored = created, errors flag = some item failed, for every body",
+        partial="JSON classification of lines (jsonparser), store-level failures after acknowledgement, searchability after flush, HTTP layer, Splunk/Loki entry points: correspondence/E2E only",
+    ),
 }
 
 NOT_YET = {}
